@@ -325,6 +325,12 @@ def run(chk):
             chk.broken("expected success, got %s" % res, full)
         if e == "maxsize" and res[0] == 0:
             chk.violation("a file longer than its applicable bound was accepted", full)
+        if kind.startswith("endless") and res[0] != 0 and isinstance(model, list) and model and res != model[0][0]:
+            # the harness's endless answer ends in a transport error after 32 MiB: a client that meets that error instead
+            # of its size limit has taken 32 MiB from a request bounded by 100 000 bytes (or by the pinned length)
+            chk.violation("an endless answer was not cut off at the applicable bound: the client read all the server had "
+                          "(32 MiB) and ended with %s instead of the size limit %s" % (res, model[0][0]), full)
+            continue
         if e == "maxupdates" and res[0] == 0:
             chk.violation("more newer roots were accepted than max_root_updates allows", full)
         roots = [r for r in clientrun.names(log) if r.endswith(".root.json")]
